@@ -1,5 +1,6 @@
 import ParryModel.C05.Model
 import ParryModel.C04.Model
+import ParryModel.C14.Model
 /-!
 # C20 model: corrected behaviour for the definedness defects found by C20 (`fixes/C20-*.diff`)
 
@@ -151,5 +152,107 @@ def rayToiAndNormalWithBallFixed (center : V3 K) (radius : K) (ray : Ray3 K) (so
     let nrm := pos.norm
     let normal := if nrm ≤ 0 then V3.zero else pos.sdiv nrm
     { toi := n, n := if inside then normal.neg else normal, fkind := 0, fidx := 0 })
+
+/-! ## `Triangle::circumcircle` and `Triangle::perimeter` (`src/shape/triangle.rs`) — modelled by C20 itself
+
+Tied bit for bit by the `trim2` / `trim3` cases of C20's own stream (the comparison is made inside the oracle of
+`C20/Driver.lean`); proved total in `C20/Theorems17.lean`. -/
+
+/-- `Triangle::circumcircle` (3-D).  `denom.is_zero()` is `== 0.0`; in the degenerate (collinear) case the centre of the
+longest side and half its length; `na::distance(&self.a, &center)` is the norm of the difference. -/
+def triCircumcircle3 (a b c : V3 K) : V3 K × K :=
+  let a' := a.sub c
+  let b' := b.sub c
+  let na := a'.normSq
+  let nb := b'.normSq
+  let dab := a'.dot b'
+  let denom := two * (na * nb - dab * dab)
+  if neq denom 0 then
+    let cc := a.sub b
+    let nc := cc.normSq
+    if na ≤ nc ∧ nb ≤ nc then (a.center b, Num.sqrt nc / two)
+    else if nb ≤ na ∧ nc ≤ na then (a.center c, Num.sqrt na / two)
+    else (b.center c, Num.sqrt nb / two)
+  else
+    let k := (b'.smul na).sub (a'.smul nb)
+    let center := c.add (((a'.smul (k.dot b')).sub (b'.smul (k.dot a'))).sdiv denom)
+    (center, (center.sub a).norm)
+
+/-- `Triangle::circumcircle` (2-D): the same text. -/
+def triCircumcircle2 (a b c : V2 K) : V2 K × K :=
+  let a' := a.sub c
+  let b' := b.sub c
+  let na := a'.normSq
+  let nb := b'.normSq
+  let dab := a'.dot b'
+  let denom := two * (na * nb - dab * dab)
+  if neq denom 0 then
+    let cc := a.sub b
+    let nc := cc.normSq
+    if na ≤ nc ∧ nb ≤ nc then (a.center b, Num.sqrt nc / two)
+    else if nb ≤ na ∧ nc ≤ na then (a.center c, Num.sqrt na / two)
+    else (b.center c, Num.sqrt nb / two)
+  else
+    let k := (b'.smul na).sub (a'.smul nb)
+    let center := c.add (((a'.smul (k.dot b')).sub (b'.smul (k.dot a'))).sdiv denom)
+    (center, (center.sub a).norm)
+
+/-- `Triangle::perimeter`: `distance(a, b) + distance(b, c) + distance(c, a)` -/
+def triPerimeter3 (a b c : V3 K) : K := (b.sub a).norm + (c.sub b).norm + (a.sub c).norm
+def triPerimeter2 (a b c : V2 K) : K := (b.sub a).norm + (c.sub b).norm + (a.sub c).norm
+
+/-! ## `Segment::{length, direction}` (`src/shape/segment.rs`) — `trim`-style three legs in C20's own stream (`segm2` / `segm3`) -/
+
+/-- `Segment::length`: `(b - a).norm()` -/
+def segLength3 (a b : V3 K) : K := (b.sub a).norm
+def segLength2 (a b : V2 K) : K := (b.sub a).norm
+
+/-- `DEFAULT_EPSILON` = `f64::EPSILON` -/
+def segEps : K := lit 1 4503599627370496
+
+/-- `Segment::direction`: `Unit::try_new(b - a, DEFAULT_EPSILON)` — `None` for a (nearly) zero-length segment -/
+def segDirection3 (a b : V3 K) : Option (V3 K) :=
+  let v := b.sub a
+  let sqn := v.normSq
+  if segEps * segEps < sqn then some (v.sdiv (Num.sqrt sqn)) else none
+def segDirection2 (a b : V2 K) : Option (V2 K) :=
+  let v := b.sub a
+  let sqn := v.normSq
+  if segEps * segEps < sqn then some (v.sdiv (Num.sqrt sqn)) else none
+
+/-! ## `PolygonalFeature::{face_face_contacts, face_vertex_contacts}` (2-D, `src/shape/polygonal_feature2d.rs`)
+
+The contact points that `contact_manifold_pfm_pfm` (2-D) pushes for a pair of support features; feature ids are not modelled.
+Tied bit for bit by the `pff2` / `pfv2` cases of C20's own stream. -/
+
+/-- `face_face_contacts(pos12, face1, normal1, face2, manifold, flipped)`: the two clip points, each with the distance of its
+own pair along `normal1`; nothing when the projections do not overlap. -/
+def faceFaceContacts2 (pos12 : Iso2 K) (a1 b1 a2 b2 n1 : V2 K) (flipped : Bool) : List (C14.Contact2 K) :=
+  match C14.clipSegSegWithNormal a1 b1 (pos12.act a2) (pos12.act b2) n1 with
+  | none => []
+  | some (ca, cb) =>
+    [C14.Contact2.flipped ca.p1 (pos12.invAct ca.p2) ((ca.p2.sub ca.p1).dot n1) flipped,
+     C14.Contact2.flipped cb.p1 (pos12.invAct cb.p2) ((cb.p2.sub cb.p1).dot n1) flipped]
+
+/-- `face_vertex_contacts(pos12, face1, sep_axis1, vertex2, manifold, flipped)`: the vertex is moved back along `sep_axis1`…
+in fact along the face normal, by `dist = (a1 − v)·n / −(n·sep_axis1)` — an unguarded division. -/
+def faceVertexContacts2 (pos12 : Iso2 K) (a1 b1 v2 sep : V2 K) (flipped : Bool) : C14.Contact2 K :=
+  let v21 := pos12.act v2
+  let t := b1.sub a1
+  let n : V2 K := ⟨-t.y, t.x⟩
+  let denom := -(n.dot sep)
+  let dist := (a1.sub v21).dot n / denom
+  C14.Contact2.flipped (v21.sub (n.smul dist)) (pos12.invAct v21) dist flipped
+
+/-! ## `Triangle::{scaled_normal, normal}` (3-D) -/
+
+/-- `Triangle::scaled_normal`: `(b - a).cross(c - a)` -/
+def triScaledNormal3 (a b c : V3 K) : V3 K := (b.sub a).cross (c.sub a)
+
+/-- `Triangle::normal`: `Unit::try_new(scaled_normal, DEFAULT_EPSILON)` — `None` for a flat triangle -/
+def triNormal3 (a b c : V3 K) : Option (V3 K) :=
+  let v := triScaledNormal3 a b c
+  let sqn := v.normSq
+  if segEps * segEps < sqn then some (v.sdiv (Num.sqrt sqn)) else none
 
 end Model
